@@ -573,7 +573,7 @@ func (l *NativeArrayListIterator[T]) NextValue() (t Value, err Value) {
 
 func (l *NativeArrayListIterator[T]) Elements() iter.Seq[Value] {
 	return func(yield func(Value) bool) {
-		for ; l.Index >= l.ArrayList.Length(); l.Index++ {
+		for ; l.Index < l.ArrayList.Length(); l.Index++ {
 			if !yield((*l.ArrayList)[l.Index].ToValue()) {
 				return
 			}
